@@ -312,7 +312,7 @@ func Eval[C any](p Prop[C], cs C) *Failure {
 		hv := h.Sum64()
 		if _, dup := st.hashes[hv]; !dup {
 			st.hashes[hv] = struct{}{}
-			if len(st.Samples) < 5 && len(raw) < 6000 {
+			if len(st.Samples) < 5 && len(raw) < 40000 {
 				st.Samples = append(st.Samples, json.RawMessage(raw))
 			}
 		}
